@@ -50,7 +50,7 @@ pub fn policy(_tier: Tier, w: &Arc<World>) -> Scn {
     }
     let names = ["a.bin", "b.bin", "sub/c.bin", "new1.bin", "new2.bin", "sub/new.bin", "missing.bin", "/a.bin", "sub\\c.bin"];
     let n = 2 + d.range("swarm.requests", 5) as usize;
-    let mut reqs = vec![];
+    let mut reqs: Vec<ReqInfo> = vec![];
     let mut desc = format!("policy {} distinct_dirs={distinct} requests=[", srv.describe());
     for i in 0..n {
         let write = d.chance("swarm.req.write", 1, 2);
@@ -77,8 +77,28 @@ pub fn policy(_tier: Tier, w: &Arc<World>) -> Scn {
         let sent_opts = xc.opts.clone();
         let (peer, client) = if write { w.add_peer(Box::new(Writer::new(xc, data.to_vec())), srv.v6, 0) } else { w.add_peer(Box::new(Reader::new(xc)), srv.v6, 0) };
         desc.push_str(&format!("{}{:?}{:?} ", if write { "W" } else { "R" }, name, sent_opts));
-        reqs.push(ReqInfo { client, peer, write, name: name.to_string(), content: data });
+        reqs.push(ReqInfo { client, peer, write, name: name.to_string(), content: data, tolerate_stale_data: false });
         w.start_peer_at(peer, 10 * MS + i as Ns * GAP);
+    }
+    if d.chance("swarm.returning_endpoint", 1, 4) {
+        // an endpoint abandons a download (its worker keeps retrying for a while) and comes back two
+        // seconds later with a request that must be refused
+        let t0 = 10 * MS + n as Ns * GAP;
+        let mut xa = XferCfg::new(srv.addr(), "b.bin");
+        xa.resend_request = false;
+        xa.script.push((1, Adv::Silent));
+        let (pa, ca) = w.add_peer(Box::new(Reader::new(xa)), srv.v6, 0);
+        reqs.push(ReqInfo { client: ca, peer: pa, write: false, name: "b.bin".into(), content: Arc::new(vec![]), tolerate_stale_data: false });
+        w.start_peer_at(pa, t0);
+        let write = srv.read_only || d.chance("swarm.returning.write", 1, 2);
+        let name = if write { "a.bin" } else { "never.bin" };
+        let mut xb = XferCfg::new(srv.addr(), name);
+        xb.resend_request = false;
+        xb.retries = 2;
+        let (pb, cb) = if write { w.add_peer_on(Box::new(Writer::new(xb, content(100, 99))), pa) } else { w.add_peer_on(Box::new(Reader::new(xb)), pa) };
+        reqs.push(ReqInfo { client: cb, peer: pb, write, name: name.to_string(), content: Arc::new(content(100, 99)), tolerate_stale_data: true });
+        w.start_peer_at(pb, t0 + 2 * SEC);
+        desc.push_str(&format!(" then R\"b.bin\"(abandoned) and, from the same endpoint 2 s later, {}{name:?}", if write { "W" } else { "R" }));
     }
     desc.push(']');
     w.add_monitor(Box::new(ReqMon::new("C06", Mode::Policy, reqs, sandbox.root.clone(), send, recv, srv.addr(), srv.read_only, srv.overwrite)));
@@ -156,11 +176,25 @@ pub fn confine(_tier: Tier, w: &Arc<World>) -> Scn {
         srv.send_dir = Some(served.clone());
         srv.recv_dir = Some(recvd.clone());
     }
+    // how the directories are spelled on the command line: absolute, relative to the working
+    // directory, or made of parent steps from a working directory below the served one
+    let spelling = d.weighted("swarm.dir_spelling", &[3, 1, 1]);
+    if spelling == 1 {
+        let rel = |p: &std::path::Path| p.strip_prefix(crate::common::process_base()).map(|x| x.to_path_buf()).unwrap_or_else(|_| p.to_path_buf());
+        srv.dir = rel(&served);
+        srv.send_dir = srv.send_dir.as_ref().map(|p| rel(p));
+        srv.recv_dir = srv.recv_dir.as_ref().map(|p| rel(p));
+    } else if spelling == 2 {
+        std::env::set_current_dir(served.join("sub")).expect("chdir into the sandbox");
+        srv.dir = std::path::PathBuf::from("../");
+        srv.send_dir = srv.send_dir.as_ref().map(|_| std::path::PathBuf::from("../"));
+        srv.recv_dir = srv.recv_dir.as_ref().map(|_| std::path::PathBuf::from("../../recv/"));
+    }
     srv.overwrite = d.chance("swarm.overwrite", 1, 2);
     let (send, recv) = if distinct { (served.clone(), recvd.clone()) } else { (served.clone(), served.clone()) };
     let n = 2 + d.range("swarm.requests", 6) as usize;
     let mut reqs = vec![];
-    let mut desc = format!("confine {} distinct_dirs={distinct} names=[", srv.describe());
+    let mut desc = format!("confine {} distinct_dirs={distinct} dir_spelling={} names=[", srv.describe(), ["absolute", "relative", "parent-steps"][spelling]);
     for i in 0..n {
         let write = d.chance("swarm.req.write", 1, 2);
         let name = draw_name(&d, &root);
@@ -168,9 +202,15 @@ pub fn confine(_tier: Tier, w: &Arc<World>) -> Scn {
         let mut xc = XferCfg::new(srv.addr(), &name);
         xc.resend_request = false;
         xc.retries = 2;
+        // some transfers are aborted by the client: a read request must leave the disk alone then, too
+        let abort = d.chance("swarm.req.abort", 1, 4);
+        if abort {
+            let step = 1 + d.range("swarm.req.abort_step", 2);
+            xc.script.push((step, if d.chance("swarm.req.abort_silent", 1, 2) { Adv::Silent } else { Adv::Error(d.range("swarm.req.abort_code", 8) as u16, true) }));
+        }
         let (peer, client) = if write { w.add_peer(Box::new(Writer::new(xc, data.to_vec())), srv.v6, 0) } else { w.add_peer(Box::new(Reader::new(xc)), srv.v6, 0) };
-        desc.push_str(&format!("{}{:?} ", if write { "W" } else { "R" }, name.replace(&root, "$SB")));
-        reqs.push(ReqInfo { client, peer, write, name, content: data });
+        desc.push_str(&format!("{}{:?}{} ", if write { "W" } else { "R" }, name.replace(&root, "$SB"), if abort { "(aborted)" } else { "" }));
+        reqs.push(ReqInfo { client, peer, write, name, content: data, tolerate_stale_data: false });
         w.start_peer_at(peer, 10 * MS + i as Ns * GAP);
     }
     desc.push(']');
@@ -249,10 +289,15 @@ pub fn options(_tier: Tier, w: &Arc<World>) -> Scn {
     let len = len.min(eff_b * 300);
     let data = Arc::new(content(len, 7));
     let tmo_s: u64 = if expect_oack { rec.iter().find(|(k, _)| k == "timeout").and_then(|(_, v)| numeric(v)).map(|x| x as u64).unwrap_or(5) } else { 5 };
-    let fname = "data.bin";
-    let path = dir.join(fname);
+    let mut fname = "data.bin";
+    let path = dir.join("data.bin");
     if !write {
         std::fs::write(&path, &*data).unwrap();
+        if d.chance("swarm.request_via_symlink", 1, 8) {
+            // the served name is a symbolic link inside the directory: tsize is the size of what is sent
+            let _ = std::os::unix::fs::symlink("data.bin", dir.join("link.bin"));
+            fname = "link.bin";
+        }
     }
     let mut xc = XferCfg::new(srv.addr(), fname);
     xc.opts = opts.clone();
@@ -303,7 +348,9 @@ pub fn options(_tier: Tier, w: &Arc<World>) -> Scn {
 fn hostile_datagram(d: &Draw) -> Vec<u8> {
     let vals = ["0", "1", "7", "8", "65464", "65465", "65536", "2147483648", "4294967296", "1099511627776", "9223372036854775808", "18446744073709551615", "18446744073709551616", "-1", "+5", "1e3", "", "abc", "99999999999999999999999999"];
     let names = ["blksize", "timeout", "tsize", "windowsize", "BLKSIZE", "WindowSize", "blksize\u{0}", "unknown"];
-    let files = ["probe.bin", "", "missing", "../x", "a/b/c", "probe.bin\u{0}x"];
+    let long_a = "m".repeat(480);
+    let long_euro: Vec<String> = (0..4).map(|k| format!("{}{}", "a".repeat(k), "\u{20ac}".repeat(160))).collect();
+    let files = ["probe.bin", "", "missing", "../x", "a/b/c", "probe.bin\u{0}x", long_a.as_str(), long_euro[0].as_str(), long_euro[1].as_str(), long_euro[2].as_str(), long_euro[3].as_str()];
     let mut base: Vec<u8> = match d.range("hostile.kind", 10) {
         0 | 1 | 2 | 3 => {
             // request with boundary option values
